@@ -498,6 +498,26 @@ pub fn minimise(case: &IterCase, orig: &Violation) -> (IterCase, Violation, usiz
 			c.schedule.pop();
 			cands.push(c);
 		}
+		// drop any one step; turn a compound step into a single one; the plain route
+		if best.schedule.len() <= 40 {
+			let sc: Vec<char> = best.schedule.chars().collect();
+			for i in 0..sc.len() {
+				let mut x = sc.clone();
+				x.remove(i);
+				let mut c = best.clone();
+				c.schedule = x.into_iter().collect();
+				cands.push(c);
+				if !matches!(sc[i], 'F' | 'B' | 'I') {
+					for r in ['F', 'B'] {
+						let mut x = sc.clone();
+						x[i] = r;
+						let mut c = best.clone();
+						c.schedule = x.into_iter().collect();
+						cands.push(c);
+					}
+				}
+			}
+		}
 		// fewer segments / shorter segments
 		let parts: Vec<&str> = best.path.split('/').collect();
 		for i in 0..parts.len() {
